@@ -325,6 +325,18 @@ let run_types line =
       Printf.sprintf "lib=%d direct=%d" (if lib_accepts gen_hop_modes sg r f then 1 else 0) (if direct_ok sg r f then 1 else 0)
   | t -> raise (Parse ("types " ^ t))
 
+exception Timeout
+
+(* a per-program time limit: the model is pure code, so the only way to bound a program whose
+   re-entrant scripts fan out exponentially is an alarm signal (handled at allocation points) *)
+let with_timeout (secs : int) (f : unit -> 'a) (on_timeout : 'a) : 'a =
+  let old = Sys.signal Sys.sigalrm (Sys.Signal_handle (fun _ -> raise Timeout)) in
+  ignore (Unix.alarm secs);
+  let r = (try f () with Timeout -> on_timeout) in
+  ignore (Unix.alarm 0);
+  Sys.set_signal Sys.sigalrm old;
+  r
+
 let () =
   let mode = if Array.length Sys.argv > 1 then Sys.argv.(1) else "sig" in
   let fuel = if Array.length Sys.argv > 2 then int_of_string Sys.argv.(2) else 8 in
@@ -332,11 +344,11 @@ let () =
     while true do
       let line = input_line stdin in
       let out =
-        try (match mode with
+        try with_timeout 4 (fun () -> match mode with
             | "track" -> run_track line
             | "expr" -> run_expr line
             | "types" -> run_types line
-            | _ -> run_sig fuel line)
+            | _ -> run_sig fuel line) "ERR TIMEOUT"
         with Parse m -> "PARSE-ERROR " ^ m
            | Failure m -> "PARSE-ERROR " ^ m
            | Stack_overflow -> "ERR STACK" in
